@@ -458,20 +458,29 @@ namespace ST
         format_buffer[end] = 0;
 
         char out_buffer[64];
+        const char *out_text = out_buffer;
         int format_size = snprintf(out_buffer, sizeof(out_buffer), format_buffer, value);
         ST_ASSERT(format_size > 0, "Your libc doesn't support reporting format size");
-        ST_ASSERT(static_cast<size_t>(format_size) < sizeof(out_buffer), "Format buffer too small");
+
+        // The precision is unbounded, so the result may not fit on the stack
+        ST::char_buffer big_buffer;
+        if (static_cast<size_t>(format_size) >= sizeof(out_buffer)) {
+            big_buffer.allocate(format_size);
+            format_size = snprintf(big_buffer.data(), big_buffer.size() + 1, format_buffer, value);
+            ST_ASSERT(static_cast<size_t>(format_size) == big_buffer.size(), "Format buffer too small");
+            out_text = big_buffer.data();
+        }
 
         if (format.minimum_length > format_size) {
             if (format.alignment == ST::align_left) {
-                output.append(out_buffer, format_size);
+                output.append(out_text, format_size);
                 output.append_char(pad, format.minimum_length - format_size);
             } else {
                 output.append_char(pad, format.minimum_length - format_size);
-                output.append(out_buffer, format_size);
+                output.append(out_text, format_size);
             }
         } else {
-            output.append(out_buffer, format_size);
+            output.append(out_text, format_size);
         }
     }
 
